@@ -26,10 +26,18 @@ def main():
     meta = json.load(open(os.path.join(d, "meta.json")))
     if checks is None:
         checks = [meta["property"]]
-    st = sh("git -C /repo status --porcelain --untracked-files=no").stdout.strip()
+    scratch = "--scratch" in args
+    repo = "/repo"
+    envp = ""
+    if scratch:
+        # development aid: run against a scratch worktree instead of /repo itself (other work may be using /repo)
+        repo = "/tmp/seedrun/wt-%s" % os.path.basename(d)
+        sh("mkdir -p /tmp/seedrun && git -C /repo worktree remove --force %s; git -C /repo worktree add --detach %s HEAD" % (repo, repo))
+        envp = "VERIF_REPO=%s VERIF_CACHE=/tmp/seedrun/cache " % repo
+    st = sh("git -C %s status --porcelain --untracked-files=no" % repo).stdout.strip()
     if st:
-        print("refusing: /repo is not clean:\n" + st); return 2
-    r = sh("git -C /repo apply %s" % os.path.join(d, "patch.diff"))
+        print("refusing: %s is not clean:\n" % repo + st); return 2
+    r = sh("git -C %s apply %s || git -C %s apply -3 %s" % (repo, os.path.join(d, "patch.diff"), repo, os.path.join(d, "patch.diff")))
     if r.returncode != 0:
         print("patch does not apply:", r.stdout); return 2
     results = {}
@@ -37,7 +45,7 @@ def main():
         for c in checks:
             for s in seeds:
                 t0 = time.time()
-                r = sh("VERIF_SEED=%d ./check %s --tier %s" % (s, c, tier), cwd="/verif")
+                r = sh(envp + "VERIF_SEED=%d ./check %s --tier %s" % (s, c, tier), cwd="/verif")
                 viol = [l for l in r.stdout.split("\n") if l.startswith("VIOLATION")]
                 detail = [l.strip() for l in r.stdout.split("\n") if l.startswith("  ")][:3]
                 results["%s/seed%d" % (c, s)] = {"exit": r.returncode, "violations": len(viol), "first": viol[:1], "detail": detail,
@@ -46,8 +54,10 @@ def main():
                 if r.returncode != 0:
                     break
     finally:
-        sh("git -C /repo checkout -- .")
-        sh("git -C /repo clean -fd -- examples tests")
+        sh("git -C %s checkout -- ." % repo)
+        sh("git -C %s clean -fd -- examples tests" % repo)
+        if scratch:
+            sh("git -C /repo worktree remove --force %s" % repo)
     detected = any(v["exit"] != 0 for v in results.values())
     json.dump({"detected": detected, "tier": tier, "results": results, "repo_head": sh("git -C /repo rev-parse --short HEAD").stdout.strip()},
               open(os.path.join(d, "result.json"), "w"), indent=1)
